@@ -28,6 +28,14 @@ def main():
     if not ok:
         ctx.build_ok = False
         ctx.broke('build: ' + str(failing))
+        # the obligations are still the theorems of the property file; none of them is discharged by a broken build
+        try:
+            import re
+            src = open(os.path.join(common.COQ, 'theories', 'Properties', a.pid + '.v')).read()
+            ctx.obligations = max(1, len(re.findall(r'^(?:Theorem|Lemma|Corollary)\s+(\w+)', src, re.M)))
+        except OSError:
+            ctx.obligations = 1
+        ctx.discharged = 0
         ctx.notes.append(log[-1500:])
         good = os.path.join(common.COQ, 'extract', 'model_driver.lastgood')
         if os.path.exists(good):
